@@ -128,7 +128,17 @@ impl<V: fmt::Debug + Clone, T: MapView<Value = V> + Clone> MapView for Unprefixe
     }
 
     fn iter(&self) -> Vec<(Identifier, Self::Value)> {
-        unimplemented!()
+        self.0
+            .iter()
+            .into_iter()
+            .filter(|(key, _)| key.as_str().starts_with(&self.1))
+            .map(|(key, value)| {
+                (
+                    Identifier::from(key.as_str().strip_prefix(&self.1).unwrap()),
+                    value,
+                )
+            })
+            .collect()
     }
 }
 
